@@ -86,30 +86,33 @@ theorem alphaBeta_depth0_row (c : Comp σ π) (L : Limits) {Good : Board → Pro
     rw [this.2]
     exact setNull_row_self _ _
 
-/-- what one iteration's aspiration loop establishes. -/
+/-- what one iteration's aspiration loop establishes (guarded by the ghost flag, see `QRange`). -/
 theorem aspiration_score (c : Comp σ π) (L : Limits) {Good : Board → Prop} {TTok : σ → Prop} {μ : Board → Nat}
     (hl : Laws c Good) (sl : ScoreLaws c Good TTok μ) (fuel : Nat) (idD : Int) :
-    ∀ (n : Nat) (alpha beta factor : Score) (s : St σ), Good s.board → TTok s.ps → RootWin alpha beta →
+    ∀ (n : Nat) (alpha beta factor : Score) (s : St σ), Good s.board → TTA TTok s →
+      (s.nmpOut = false → RootWin alpha beta) →
       aspSane c L fuel idD n alpha beta factor s →
-      TTok (aspiration c L fuel idD n alpha beta factor s).st.ps ∧
+      TTA TTok (aspiration c L fuel idD n alpha beta factor s).st ∧
       (∀ s', aspiration c L fuel idD n alpha beta factor s = .aborted s' → s'.aborted = true) ∧
-      (∀ al be sa s', aspiration c L fuel idD n alpha beta factor s = .ok al be sa s' →
+      (∀ al be sa s', aspiration c L fuel idD n alpha beta factor s = .ok al be sa s' → s'.nmpOut = false →
         InR sa ∧ (idD = 0 → s'.pv.row 0 = []) ∧ (1 ≤ idD → RootOut' c.keys s.board s') ∧
         (1 ≤ idD → Final c.keys s.board → FinalScore c.keys s.board sa ∧ s'.pv.row 0 = [])) := by
   intro n
   induction n with
   | zero =>
     intro alpha beta factor s _ htt _ _
-    exact ⟨htt, (fun s' h => by simp only [aspiration, Asp.aborted.injEq] at h; rw [← h]; rfl),
+    exact ⟨htt.congr rfl rfl, (fun s' h => by simp only [aspiration, Asp.aborted.injEq] at h; rw [← h]; rfl),
       fun _ _ _ _ h => by simp [aspiration] at h⟩
   | succ n ih =>
     intro alpha beta factor s hg htt hw hs
-    have hab := alphaBeta_spec c L hl fuel alpha beta idD 0 .pv s hg (sl.tt_ok _ htt) (Int.le_refl 0)
-    have hrg := alphaBeta_range c L hl sl fuel alpha beta idD 0 .pv s hg (Int.le_refl 0) (by decide) hw.1 htt
-    have hroot := fun (h1 : 1 ≤ idD) => alphaBeta_root' c L hl sl fuel alpha beta hw idD h1 s hg htt
-    have hfin := fun (h1 : 1 ≤ idD) (hf : Final c.keys s.board) => alphaBeta_final c L hl sl fuel alpha beta hw idD h1 s hg (sl.tt_ok _ htt) hf
+    have hab := alphaBeta_spec c L hl fuel alpha beta idD 0 .pv s hg htt.1 (Int.le_refl 0)
+    have hrg := alphaBeta_range c L hl sl fuel alpha beta idD 0 .pv s hg (Int.le_refl 0) (by decide)
+      (fun hA => (hw hA).1) htt
+    have hroot := fun (hw' : RootWin alpha beta) (h1 : 1 ≤ idD) => alphaBeta_root' c L hl sl fuel alpha beta hw' idD h1 s hg htt
+    have hfin := fun (hw' : RootWin alpha beta) (h1 : 1 ≤ idD) (hf : Final c.keys s.board) =>
+      alphaBeta_final c L hl sl fuel alpha beta hw' idD h1 s hg htt.1 hf
     have hrow : idD = 0 → (alphaBeta c L fuel alpha beta idD 0 .pv s).2.pv.row 0 = [] := by
-      intro h; rw [h]; exact alphaBeta_depth0_row c L hl fuel alpha beta s hg (sl.tt_ok _ htt)
+      intro h; rw [h]; exact alphaBeta_depth0_row c L hl fuel alpha beta s hg htt.1
     simp only [aspiration]
     simp only [aspSane] at hs
     simp only at hroot hfin
@@ -117,10 +120,11 @@ theorem aspiration_score (c : Comp σ π) (L : Limits) {Good : Board → Prop} {
     have haf := abort_frame L r.2
     have hap := (abort_pv L r.2).1
     have hps := abort_ps L r.2
+    have han := abort_nmpOut L r.2
     have hat := abort_true_iff L r.2
     have hfa := @abort_false σ _ L r.2
-    generalize abort L r.2 = as at haf hap hps hat hfa hs ⊢
-    have htt2 : TTok as.2.ps := by rw [hps]; exact hrg.1
+    generalize abort L r.2 = as at haf hap hps han hat hfa hs ⊢
+    have htt2 : TTA TTok as.2 := hrg.1.congr hps han
     split
     · next hab1 =>
       refine ⟨htt2, fun s' h => ?_, fun _ _ _ _ h => by cases h⟩
@@ -131,43 +135,46 @@ theorem aspiration_score (c : Comp σ π) (L : Limits) {Good : Board → Prop} {
       rw [if_neg hna] at hs
       split
       · next hin =>
-        refine ⟨htt2, (fun s' h => by cases h), fun al be sa s' h => ?_⟩
+        refine ⟨htt2, (fun s' h => by cases h), fun al be sa s' h hA => ?_⟩
         cases h
+        have hAr : r.2.nmpOut = false := by rw [← han]; exact hA
+        have hw' := hw (hab.1.mono.a_back hAr)
         have hrab : r.2.aborted = false := (hfa hna').2
         simp only [Bool.and_eq_true, Bool.not_eq_true', decide_eq_false_iff_not] at hin
         have hgt : alpha < r.1 := Int.not_le.1 hin.1
         have hlt : r.1 < beta := Int.not_le.1 hin.2
-        refine ⟨hrg.2 hrab, fun h => by rw [hap]; exact hrow h, fun h1 => ?_, fun h1 hf => ?_⟩
-        · rcases hroot h1 hrab hgt hlt with h | h
+        refine ⟨(hrg.2 hrab hAr).inR (Int.le_refl 0), fun h => by rw [hap]; exact hrow h, fun h1 => ?_, fun h1 hf => ?_⟩
+        · rcases hroot hw' h1 hrab hAr hgt hlt with h | h
           · exact Or.inl (by rw [hap]; exact h)
           · exact Or.inr h
-        · have := hfin h1 hf hrab hgt hlt
+        · have := hfin hw' h1 hf hrab hgt hlt
           exact ⟨this.1, by rw [hap]; exact this.2⟩
       · next hnin =>
         simp only [if_neg hnin] at hs
         have hb2 : as.2.board = s.board := by rw [haf.board, hab.1.board]
-        have := ih _ _ _ as.2 (by rw [hb2]; exact hg) htt2 hs.1 hs.2
+        have := ih _ _ _ as.2 (by rw [hb2]; exact hg) htt2 (fun _ => hs.1) hs.2
         rw [hb2] at this
         exact this
 
-/-- what `idLoop` establishes about scores, tables, the null move and final roots. -/
+/-- what `idLoop` establishes about scores, tables, the null move and final roots (guarded). -/
 theorem idLoop_score (c : Comp σ π) (L : Limits) (clock : Clock) {Good : Board → Prop} {TTok : σ → Prop} {μ : Board → Nat}
     (hl : Laws c Good) (sl : ScoreLaws c Good TTok μ) (fuel : Nat) (b : Board) (hg : Good b) (hd : 1 ≤ L.depth) :
     ∀ (n : Nat) (idD : Int) (v : IDVars) (s : St σ), s.board = b → 0 ≤ idD → (n : Int) + idD = 64 →
-      TTok s.ps → RootWin v.alpha v.beta → idSane c L clock fuel n idD v s →
-      (2 ≤ idD → v.move ≠ 0 ∨ Final c.keys b) →
-      (Final c.keys b → v.move = 0 ∧ (2 ≤ idD → FinalScore c.keys b v.score)) →
-      TTok (idLoop c L clock fuel n idD v s).st.ps ∧
-      ((idLoop c L clock fuel n idD v s).move = 0 → Final c.keys b) ∧
-      (Final c.keys b → (idLoop c L clock fuel n idD v s).st.aborted = false →
+      TTA TTok s → (s.nmpOut = false → RootWin v.alpha v.beta) → idSane c L clock fuel n idD v s →
+      (s.nmpOut = false → 2 ≤ idD → v.move ≠ 0 ∨ Final c.keys b) →
+      (Final c.keys b → s.nmpOut = false → v.move = 0 ∧ (2 ≤ idD → FinalScore c.keys b v.score)) →
+      TTA TTok (idLoop c L clock fuel n idD v s).st ∧
+      ((idLoop c L clock fuel n idD v s).st.nmpOut = false → (idLoop c L clock fuel n idD v s).move = 0 → Final c.keys b) ∧
+      (Final c.keys b → (idLoop c L clock fuel n idD v s).st.nmpOut = false →
+        (idLoop c L clock fuel n idD v s).st.aborted = false →
         (idLoop c L clock fuel n idD v s).move = 0 ∧ FinalScore c.keys b (idLoop c L clock fuel n idD v s).score) := by
   intro n
   induction n with
   | zero =>
     intro idD v s _ _ hn htt _ _ hyp hfin
     simp only [idLoop]
-    refine ⟨htt, fun hmv => ?_, fun hf _ => ⟨(hfin hf).1, (hfin hf).2 (by omega)⟩⟩
-    rcases hyp (by omega) with h | h
+    refine ⟨htt, fun hA hmv => ?_, fun hf hA _ => ⟨(hfin hf hA).1, (hfin hf hA).2 (by omega)⟩⟩
+    rcases hyp hA (by omega) with h | h
     · exact absurd hmv h
     · exact h
   | succ n ih =>
@@ -182,8 +189,8 @@ theorem idLoop_score (c : Comp σ π) (L : Limits) (clock : Clock) {Good : Board
         have e1 : decide (idD < maxPlies) = true := decide_eq_true (by unfold maxPlies; omega)
         have e2 : decide (idD ≤ L.depth) = true := decide_eq_true (by omega)
         simp [e1, e2] at hcond
-      refine ⟨htt, fun hmv => ?_, fun hf _ => ⟨(hfin hf).1, (hfin hf).2 h2⟩⟩
-      rcases hyp h2 with h | h
+      refine ⟨htt, fun hA hmv => ?_, fun hf hA _ => ⟨(hfin hf hA).1, (hfin hf hA).2 h2⟩⟩
+      rcases hyp hA h2 with h | h
       · exact absurd hmv h
       · exact h
     · next hcond =>
@@ -194,7 +201,7 @@ theorem idLoop_score (c : Comp σ π) (L : Limits) (clock : Clock) {Good : Board
         apply hcond
         have e1 : decide (idD < maxPlies) = false := decide_eq_false (by unfold maxPlies; omega)
         simp [e1]
-      have hasp := aspiration_spec c L hl fuel idD fuel v.alpha v.beta 1 s (by rw [hb]; exact hg) (sl.tt_ok _ htt)
+      have hasp := aspiration_spec c L hl fuel idD fuel v.alpha v.beta 1 s (by rw [hb]; exact hg) htt.1
       have hsc := aspiration_score c L hl sl fuel idD fuel v.alpha v.beta 1 s (by rw [hb]; exact hg) htt hw hs.1
       have hs2 := hs.2
       generalize aspiration c L fuel idD fuel v.alpha v.beta 1 s = a at hasp hsc hs2 ⊢
@@ -206,7 +213,7 @@ theorem idLoop_score (c : Comp σ π) (L : Limits) (clock : Clock) {Good : Board
         have hab' : s'.aborted = true := hsc.2.1 s' rfl
         simp only
         split
-        · refine ⟨hsc.1, fun hmv => ?_, fun _ hna => ?_⟩
+        · refine ⟨hsc.1.congr rfl rfl, fun _ hmv => ?_, fun _ _ hna => ?_⟩
           · simp only at hmv
             have hfl := firstLegal_spec c hl s'.board (by rw [hb']; exact hg) (MoveGen.gen s'.board) (fun _ h => h)
             rcases hfl.2 with hp | ⟨_, hn'⟩
@@ -216,7 +223,7 @@ theorem idLoop_score (c : Comp σ π) (L : Limits) (clock : Clock) {Good : Board
           · simp only [setBoard_aborted] at hna
             rw [hab'] at hna; cases hna
         · next hne =>
-          refine ⟨hsc.1, fun hmv => absurd hmv hne, fun _ hna => ?_⟩
+          refine ⟨hsc.1, fun _ hmv => absurd hmv hne, fun _ _ hna => ?_⟩
           simp only at hna
           rw [hab'] at hna; cases hna
       | ok al be sample s' =>
@@ -226,23 +233,26 @@ theorem idLoop_score (c : Comp σ π) (L : Limits) (clock : Clock) {Good : Board
         rw [hb] at hline
         have hb' : s'.board = b := hf.board.trans hb
         obtain ⟨htt', _, hokc⟩ := hsc
-        obtain ⟨hsa, hrow0, hro, hfs⟩ := hokc al be sample s' rfl
-        rw [hb] at hro hfs
+        have hback : s'.nmpOut = false → s.nmpOut = false := fun h => hf.mono.a_back h
+        have hokc' := fun hA => hokc al be sample s' rfl hA
+        rw [hb] at hokc'
         have hact : s'.pv.active = s'.pv.row 0 := rfl
         simp only [hact] at hs2 ⊢
         -- under `Final` the variation is empty, so the move stays null
-        have hactF : Final c.keys b → s'.pv.row 0 = [] := by
-          intro hfb
+        have hactF : Final c.keys b → s'.nmpOut = false → s'.pv.row 0 = [] := by
+          intro hfb hA
+          obtain ⟨_, hrow0, _, hfs⟩ := hokc' hA
           by_cases hz : idD = 0
           · exact hrow0 hz
           · exact (hfs (by omega) hfb).2
         split
         · next hsa' =>
-          refine ⟨htt', fun hmv => absurd hmv hsa'.1, fun hfb _ => ?_⟩
+          refine ⟨htt'.congr rfl rfl, fun _ hmv => absurd hmv hsa'.1, fun hfb hA _ => ?_⟩
           exfalso
           apply hsa'.1
-          rw [hactF hfb]
-          exact (hfin hfb).1
+          have hA' : s'.nmpOut = false := hA
+          rw [hactF hfb hA']
+          exact (hfin hfb (hback hA')).1
         · next hnsa =>
           rw [if_neg hnsa] at hs2
           have hw' : wrapS8 (idD + 1) = idD + 1 := by unfold wrapS8; omega
@@ -251,10 +261,13 @@ theorem idLoop_score (c : Comp σ π) (L : Limits) (clock : Clock) {Good : Board
           · exact hb'
           · omega
           · push_cast at hn ⊢; omega
-          · exact htt'
-          · exact rootWin_first hsa sl.window
+          · exact htt'.congr rfl rfl
+          · intro hA
+            exact rootWin_first (hokc' hA).1 sl.window
           · exact hs2
-          · intro h2
+          · intro hA h2
+            have hA' : s'.nmpOut = false := hA
+            obtain ⟨_, _, hro, _⟩ := hokc' hA'
             rcases hro (by omega) with h | h
             · left
               cases hrow : s'.pv.row 0 with
@@ -264,23 +277,29 @@ theorem idLoop_score (c : Comp σ π) (L : Limits) (clock : Clock) {Good : Board
                 rw [hrow] at hline
                 exact hl.gen_ne_zero _ _ hg (mem_playable.1 (legalLine_head hline)).1
             · exact Or.inr h
-          · intro hfb
+          · intro hfb hA
+            have hA' : s'.nmpOut = false := hA
+            obtain ⟨_, _, _, hfs⟩ := hokc' hA'
             refine ⟨?_, fun h2 => (hfs (by omega) hfb).1⟩
-            rw [hactF hfb]
-            exact (hfin hfb).1
+            rw [hactF hfb hA']
+            exact (hfin hfb (hback hA')).1
 
 theorem go_score (c : Comp σ π) (L : Limits) (clock : Clock) {Good : Board → Prop} {TTok : σ → Prop} {μ : Board → Nat}
     (hl : Laws c Good) (sl : ScoreLaws c Good TTok μ) (fuel : Nat) (e : Engine σ) (b : Board) (hg : Good b) (nodes0 : Int)
-    (hd : 1 ≤ L.depth) (htt : TTok e.ps) (hs : GoSane c L clock fuel e b nodes0) :
+    (hd : 1 ≤ L.depth) (htt : TTok e.ps) (hs : GoSane c L clock fuel e b nodes0)
+    (hA : (go c L clock fuel e b nodes0).st.nmpOut = false) :
     TTok (go c L clock fuel e b nodes0).st.ps ∧
     ((go c L clock fuel e b nodes0).move = 0 → Final c.keys b) ∧
     (Final c.keys b → (go c L clock fuel e b nodes0).st.aborted = false →
       (go c L clock fuel e b nodes0).move = 0 ∧ FinalScore c.keys b (go c L clock fuel e b nodes0).score) := by
   have h := idLoop_score c L clock hl sl fuel b hg hd 64 0
     { alpha := -Inf - 1, beta := Inf + 1, score := 0, move := 0, ponder := 0, reads := 0, ppolls := 0, out := [] }
-    (goInit L e b nodes0) rfl (Int.le_refl 0) (by decide) htt rootWin_init hs (fun h => absurd h (by decide))
-    (fun _ => ⟨rfl, fun h => absurd h (by decide)⟩)
-  exact ⟨sl.tt_nextGen _ h.1, h.2.1, h.2.2⟩
+    (goInit L e b nodes0) rfl (Int.le_refl 0) (by decide) ⟨sl.tt_ok _ htt, fun _ => htt⟩ (fun _ => rootWin_init) hs
+    (fun _ h => absurd h (by decide)) (fun _ _ => ⟨rfl, fun h => absurd h (by decide)⟩)
+  have hA' : (idLoop c L clock fuel 64 0
+    { alpha := -Inf - 1, beta := Inf + 1, score := 0, move := 0, ponder := 0, reads := 0, ppolls := 0, out := [] }
+    (goInit L e b nodes0)).st.nmpOut = false := hA
+  exact ⟨sl.tt_nextGen _ (h.1.2 hA'), h.2.1 hA', fun hf hna => h.2.2 hf hA' hna⟩
 
 end Search
 end ChessVerif
